@@ -922,6 +922,18 @@ def allclose(a, b, rtol=1e-05, atol=1e-08, equal_nan=False):
     return all_(elementwise(close, a, b))
 
 
+def amax(a, axis=None, keepdims=False, **kw):
+    if not has_sym(a):
+        return plain_call(rnp.max, a, axis=axis, keepdims=keepdims)
+    return reduce_axis(SCALAR_OPS["maximum"], a, axis=axis, keepdims=keepdims)
+
+
+def amin(a, axis=None, keepdims=False, **kw):
+    if not has_sym(a):
+        return plain_call(rnp.min, a, axis=axis, keepdims=keepdims)
+    return reduce_axis(SCALAR_OPS["minimum"], a, axis=axis, keepdims=keepdims)
+
+
 def isclose(a, b, rtol=1e-05, atol=1e-08, equal_nan=False):
     if not has_sym([a, b]):
         return plain_call(rnp.isclose, a, b, rtol=rtol, atol=atol, equal_nan=equal_nan)
@@ -1064,7 +1076,7 @@ class _Shim:
             array=array, asarray=asarray, asanyarray=asarray, zeros=zeros, ones=ones, empty=empty, full=full, arange=arange, eye=eye,
             zeros_like=zeros_like, ones_like=ones_like, empty_like=empty_like,
             where=where_, nan_to_num=nan_to_num, sum=sum_, any=any_, all=all_, count_nonzero=count_nonzero,
-            dot=dot, matmul=matmul, abs=abs_, clip=clip, allclose=allclose, isclose=isclose, argsort=argsort, argmin=argmin, cumsum=cumsum,
+            dot=dot, matmul=matmul, abs=abs_, clip=clip, allclose=allclose, isclose=isclose, max=amax, amax=amax, min=amin, amin=amin, argsort=argsort, argmin=argmin, cumsum=cumsum,
             linalg=_Linalg(), ndarray=rnp.ndarray,
         )
         for n in ("add", "subtract", "multiply", "true_divide", "divide", "negative", "absolute", "fabs", "power", "square", "sqrt",
